@@ -11,24 +11,24 @@ from .props import c04, c05
 
 @st.composite
 def entry_case(draw, tier, entries=("join", "join", "filter_tables", "filter_candset", "matcher"),
-               missing=None):
+               missing=None, self_join=None):
     e = draw(st.sampled_from(list(entries)))
     if e == "join":
         if draw(st.integers(0, 5)) == 0:
-            case = draw(gen.ed_join_case(tier, missing=missing))
+            case = draw(gen.ed_join_case(tier, missing=missing, self_join=self_join))
         else:
-            case = draw(gen.set_join_case(tier, missing=missing))
+            case = draw(gen.set_join_case(tier, missing=missing, self_join=self_join))
     elif e in ("filter_tables", "filter_candset"):
         if draw(st.integers(0, 4)) == 0:
-            case = draw(c04.ed_filter_case(tier, missing=missing))
+            case = draw(c04.ed_filter_case(tier, missing=missing, self_join=self_join))
         else:
-            case = draw(c04.set_filter_case(tier, missing=missing))
+            case = draw(c04.set_filter_case(tier, missing=missing, self_join=self_join))
         case["op"] = draw(st.sampled_from([">=", ">", "="])) if case["ftype"] == "overlap" \
             else ">="
         if case["ftype"] == "overlap":
             case["out_sim_score"] = draw(st.booleans())
     else:
-        case = draw(c05.matcher_case(tier))
+        case = draw(c05.matcher_case(tier, self_join=self_join))
         case["real"] = False
         case["pad"] = 0
     case["entry"] = e
@@ -94,7 +94,7 @@ def run(ctx, case, L, R, C=None, tok="fresh", n_jobs=None, real=False, filt=None
 
 
 def build(case):
-    L, R = canon.build_table(case["L"]), canon.build_table(case["R"])
+    L, R = canon.build_pair(case)
     C = gen.build_candset(case["candset"]) if case["entry"] in ("filter_candset", "matcher") \
         else None
     return L, R, C
